@@ -117,11 +117,31 @@ def bits(mask, n):
     return [bool((mask >> j) & 1) for j in range(n)]
 
 
+# When an oracle exercises a shipped table pair it sets NAMES = (biort_name, qshift_name): the module is then
+# constructed from the NAMES, the way users do, so that the name-resolution path (loader, per-name caches,
+# preparation of named filters) is part of what is compared with the reference.
+NAMES = None
+
+
+class named:
+    def __init__(self, b, s):
+        self.v = (b, s) if isinstance(b, str) and isinstance(s, str) else None
+
+    def __enter__(self):
+        global NAMES
+        NAMES = self.v
+
+    def __exit__(self, *a):
+        global NAMES
+        NAMES = None
+
+
 def DTCWTForward(ps, ts):
     o, ri, sym, J, skm, inm = ps
     from pytorch_wavelets.dtcwt.transform2d import DTCWTForward as M
     h0o, h1o, h0a, h0b, h1a, h1b, x = ts
-    mod = M(biort=(h0o, h1o), qshift=(h0a, h0b, h1a, h1b), J=J, skip_hps=bits(skm, J), include_scale=bits(inm, J),
+    bi, qs = NAMES if NAMES else ((h0o, h1o), (h0a, h0b, h1a, h1b))
+    mod = M(biort=bi, qshift=qs, J=J, skip_hps=bits(skm, J), include_scale=bits(inm, J),
             o_dim=o, ri_dim=ri, mode=mode_of(sym))
     yl, yh = mod(T(x))
     if isinstance(yl, (list, tuple)):
@@ -138,9 +158,10 @@ def DTCWTInverse(ps, ts):
     from pytorch_wavelets.dtcwt.transform2d import DTCWTInverse as M
     g0o, g1o, g0a, g0b, g1a, g1b = ts[:6]
     low = ts[6]; highs = ts[7:]
-    mod = M(biort=(g0o, g1o), qshift=(g0a, g0b, g1a, g1b), o_dim=o, ri_dim=ri, mode=mode_of(sym))
+    bi, qs = NAMES if NAMES else ((g0o, g1o), (g0a, g0b, g1a, g1b))
+    mod = M(biort=bi, qshift=qs, o_dim=o, ri_dim=ri, mode=mode_of(sym))
     return [N(mod((_absent(sp) if low is None else T(low), [_absent(sp) if h is None else T(h) for h in highs])))]
 
 
-IMPL = {k: v for k, v in list(globals().items()) if callable(v) and k[0] != '_' and k not in ('T', 'N', 'lw', 'tf', 'col', 'mode_of', 'out', 'bits')}
+IMPL = {k: v for k, v in list(globals().items()) if callable(v) and k[0] != '_' and k not in ('T', 'N', 'lw', 'tf', 'col', 'mode_of', 'out', 'bits', 'named')}
 
